@@ -131,6 +131,12 @@ def od_systems(tier):
                        "space": {"type": "graph", "nodes": [{"vol": 1.0, "env": 0}, {"vol": 8.0, "env": 0}, {"vol": 0.5, "env": 0}],
                                  "edges": [[0, 1, 1.5, 0.75], [2, 1, 2.5, 1.25]]}},
               "init": [[1, 1, 0, 0, 1, 1, 0, 0, 0]]})
+    s.append({"name": "per-environment D on a graph with unequal volumes (size-weighted harmonic mean)",
+              "spec": {"species": [{"label": "A", "D": {"a": 1.0, "b": 4.0}}, {"label": "B", "D": {"a": 0.5, "default": 2.0}}],
+                       "reactions": [R([("A", 1)], [("B", 1)], 0.3, 0.1)], "envs": ["a", "b"],
+                       "space": {"type": "graph", "nodes": [{"vol": 1.0, "env": 0}, {"vol": 8.0, "env": 1}],
+                                 "edges": [[0, 1, 1.5, 0.75]]}},
+              "init": [[2, 1, 1, 2]]})
     s.append({"name": "3A->B, A+2B->C, 0->A in one cell (combinatorial factors, volume exponents)",
               "spec": {"species": [{"label": "A"}, {"label": "B"}, {"label": "C"}],
                        "reactions": [R([("A", 3)], [("B", 1)], 0.7), R([("A", 1), ("B", 2)], [("C", 1)], 1.1, 0.4),
@@ -347,6 +353,16 @@ def tl_systems():
                   "space": {"type": "grid", "w": 2, "h": 2, "d": 1, "vol": 1.5, "env": [0, 1, 1, 0], "bc": {"y": "periodical"}},
                   "state": [15.0, 22.0, 9.0, 30.0, 11.0, 17.0, 25.0, 8.0, 4.0, 0.0, 6.0, 2.0],
                   "chemostats": [0, 0, 0, 0, 0, 1, 0, 0, 0, 0, 0, 0]}},
+        {"name": "per-environment D, unequal volumes, 2-node graph",
+         "spec": {"species": [{"label": "A", "D": {"a": 1.0, "b": 4.0}}, {"label": "B", "D": {"a": 0.5, "default": 2.0}}],
+                  "reactions": [], "envs": ["a", "b"],
+                  "space": {"type": "graph", "nodes": [{"vol": 1.0, "env": 0}, {"vol": 8.0, "env": 1}], "edges": [[0, 1, 1.5, 0.75]]},
+                  "state": [30.0, 45.0, 12.0, 21.0]}},
+        {"name": "self-neighbours: 3x1x1 grid periodic in y and z (axes of length 1) and x",
+         "spec": {"species": [{"label": "A", "D": 0.5}, {"label": "B", "D": 0.25}],
+                  "reactions": [R([("A", 1)], [("B", 1)], 0.2, 0.1)], "envs": [""],
+                  "space": {"type": "grid", "w": 3, "h": 1, "d": 1, "vol": 1.0, "bc": {"x": "periodical", "y": "periodical", "z": "periodical"}},
+                  "state": [40.0, 25.0, 31.0, 18.0, 22.0, 9.0]}},
         {"name": "3A->B single cell",
          "spec": {"species": [{"label": "A"}, {"label": "B"}], "reactions": [R([("A", 3)], [("B", 1)], 0.001, 0.5)], "envs": [""],
                   "space": {"type": "grid", "w": 1, "h": 1, "d": 1, "vol": 0.5}, "state": [40.0, 5.0]}},
